@@ -440,7 +440,9 @@ pub fn wire_frame(rng: &mut Rng, n: u16) -> (Vec<u8>, Hostile) {
         p[3] = v;
         h = Hostile::StrLenPatched;
     }
-    (crc::frame(&p), h)
+    // the six reserved header bits are not always zero on the wire
+    let res = if rng.chance(1, 8) { rng.range(1, 63) as u8 } else { 0 };
+    (crc::frame_with_reserved(&p, res), h)
 }
 
 fn rng_pick_count(rng: &mut Rng, max: usize) -> usize {
@@ -468,8 +470,24 @@ pub fn stream(rng: &mut Rng, max_len: usize) -> (Vec<u8>, u32) {
             break;
         }
         let start = s.len();
-        let k = rng.below(14);
+        let k = rng.below(15);
         match k {
+            14 => {
+                // a valid frame whose checksum is 00 00 00 (payload ends with the CRC-24Q of
+                // everything before it) or whose register passes through zero mid-frame
+                let l = rng.range(3, 60) as usize;
+                let mut p = rng.bytes(l);
+                let j = if rng.bool() { l - 3 } else { rng.usize_below(l - 2) };
+                let mut pre = vec![0xD3u8, ((l >> 8) & 3) as u8, l as u8];
+                pre.extend_from_slice(&p[..j]);
+                let c = crc::crc24q(&pre);
+                p[j] = (c >> 16) as u8;
+                p[j + 1] = (c >> 8) as u8;
+                p[j + 2] = c as u8;
+                s.extend(crc::frame(&p));
+                tags |= 1;
+                tags |= 4096;
+            }
             13 => {
                 // the previous frame again: identical, or with damage / changed reserved bits
                 // (anything that remembers the last frame must not be fooled by a near-copy)
@@ -667,7 +685,7 @@ fn pick_len(rng: &mut Rng) -> usize {
     }
 }
 
-pub const STREAM_TAGS: [&str; 12] = [
+pub const STREAM_TAGS: [&str; 13] = [
     "valid_random_frame",
     "valid_typed_frame",
     "garbage",
@@ -680,4 +698,5 @@ pub const STREAM_TAGS: [&str; 12] = [
     "stray_preamble_before_frame",
     "frame_with_preamble_lookalike_header",
     "previous_frame_repeated_with_variation",
+    "frame_with_zero_checksum_or_zero_register",
 ];
